@@ -2,8 +2,8 @@ SPECIFICATION Spec
 CONSTANTS
   MaxWordHex = 4
   MaxWordDecrypt = 3
-  MaxWordPort = 5
-  MaxWordOpen = 4
+  MaxWordPort = 4
+  MaxWordOpen = 3
   MaxWordRec = 4
 INVARIANTS LawTotal LawHex LawPort
 CHECK_DEADLOCK FALSE
